@@ -1,44 +1,772 @@
+// C16: semantic action references ($name, $N, $$, ${x.offset}, ${x.endoffset}, ${first()...},
+// ${last()...}, ${self[N]...}) bind to the right symbols in every expansion of a rule.
+//
+// Layer B (real compiler.Compile + gen.Generate + go build + generated parser). Rules are
+// enumerated from a small rule-shape language (shape.go), simplest first: a body is a sequence of
+// 1..3 items of a fixed catalogue (plain / optional / aliased symbols, optional groups, nested
+// choices with a shared alias, multi-symbol aliases, lists with and without separators, sets, a
+// (?= Z) lookahead, a typed nonterminal, a repeated symbol), with an end-of-rule action and
+// mid-rule actions at no / one / every gap (including the gaps inside groups). Every action
+// records every reference the rule as written makes visible to it. A second family puts two rules
+// with IDENTICAL action texts in one grammar (the second one differs by a lookahead, or not at
+// all), which is the situation in which the compiler shares extracted mid-rule nonterminals.
+//
+// Terminals carry {int} values 100+start offset, blanks between tokens vary, so values, offsets,
+// end offsets and indices are pairwise distinguishable. The reference model computes, for every
+// expansion of the rule as written (which optional parts are present, which alternative, how many
+// list elements), what each recorded reference must print: the value / start / end of the symbol
+// it names, or nil / -1 when that symbol is not part of the expansion.
 package main
 
 import (
 	"encoding/json"
 	"fmt"
 	"os"
+	"sort"
 	"strings"
+
+	"github.com/inspirer/textmapper/grammar"
 
 	"verif/internal/core"
 	"verif/internal/genharness"
 )
 
+const L = 5 // maximal sentence length of a rule body in tokens
+
 func main() { core.Main("C16", "exploration", run, replay, nil) }
 
-type rCase struct {
-	TM   string `json:"tm"`
-	Text string `json:"text"`
+// ---- grammar specs
+
+type wrec struct {
+	Tag   string   `json:"tag"`
+	Vals  []string `json:"vals"` // "*" = not specified
+	pres  []string
+	refs  []ref
+	where string // end | mid | parent
 }
 
-func run(c *core.Ctx) {}
+type xcase struct {
+	text string
+	rule int
+	want []wrec
+}
 
+type gspec struct {
+	desc     string
+	rules    []*rule
+	prefix   []string
+	tm       string
+	cases    []xcase
+	adj      bool // some expansion has two actions with nothing between them
+	absent   bool // some exercised expansion lacks a symbol of the rule as written
+	hasMid   bool
+	shortest int
+}
+
+func (g *gspec) ruleTexts() string {
+	var parts []string
+	for _, r := range g.rules {
+		parts = append(parts, r.name+": "+plainText(r.body))
+	}
+	return strings.Join(parts, " ;  ")
+}
+
+// plainText prints the body with actions abbreviated (for messages).
+func plainText(seq []*node) string {
+	var parts []string
+	for _, n := range seq {
+		switch n.k {
+		case kAct:
+			parts = append(parts, "{"+n.tag+"}")
+		case kOpt, kGroup, kChoice:
+			var alts []string
+			for _, a := range n.alts {
+				alts = append(alts, plainText(a))
+			}
+			s := strings.Join(alts, " | ")
+			if n.k == kOpt && !n.paren {
+				parts = append(parts, s+"?")
+				continue
+			}
+			s = "(" + s + ")"
+			if n.k == kOpt {
+				s += "?"
+			}
+			if n.alias != "" {
+				s += "[" + n.alias + "]"
+			}
+			parts = append(parts, s)
+		default:
+			parts = append(parts, n.text())
+		}
+	}
+	return strings.Join(parts, " ")
+}
+
+func collectTerms(seq []*node, into map[string]bool) {
+	for _, n := range seq {
+		switch n.k {
+		case kSym:
+			if n.sym == "P" {
+				into["tp"], into["tq"] = true, true
+			} else {
+				into[n.sym] = true
+			}
+		case kList:
+			for _, e := range n.elem {
+				into[e] = true
+			}
+			if n.sep != "" {
+				into[n.sep] = true
+			}
+		case kSet:
+			for _, e := range n.set {
+				into[e] = true
+			}
+		}
+		for _, a := range n.alts {
+			collectTerms(a, into)
+		}
+	}
+}
+
+func hasKind(seq []*node, k kind) bool {
+	for _, n := range seq {
+		if n.k == k {
+			return true
+		}
+		for _, a := range n.alts {
+			if hasKind(a, k) {
+				return true
+			}
+		}
+	}
+	return false
+}
+
+// finish analyses the rules, prints the grammar and computes all cases. false = nothing to run.
+func (g *gspec) finish(name string) bool {
+	terms := map[string]bool{}
+	look := false
+	for i, r := range g.rules {
+		r.name = fmt.Sprintf("R%d", i+1)
+		r.analyse()
+		collectTerms(r.body, terms)
+		look = look || hasKind(r.body, kLook)
+		g.hasMid = g.hasMid || r.hasMid
+		g.adj = g.adj || adjacentActions(r.exps)
+	}
+	if len(g.rules) > 1 {
+		terms["tz"] = true
+	}
+	var tl []string
+	for t := range terms {
+		tl = append(tl, t)
+	}
+	sort.Strings(tl)
+	var sb strings.Builder
+	fmt.Fprintf(&sb, "language %s(go);\n\npackage = \"scratch/%s\"\neventBased = true\n\n:: lexer\n\nWhiteSpace: /[ ]+/ (space)\n", name, name)
+	for _, t := range tl {
+		fmt.Fprintf(&sb, "%s {int}: /%s/ { $$ = 100 + l.tokenOffset }\n", t, t[1:])
+	}
+	sb.WriteString("\n:: parser\n\n%input S;\n\nS {interface{}}:\n")
+	for i, r := range g.rules {
+		lead := "    "
+		if i > 0 {
+			lead = "  | "
+		}
+		pre := ""
+		if g.prefix[i] != "" {
+			pre = "t" + g.prefix[i] + " "
+		}
+		fmt.Fprintf(&sb, "%s%s%s { \"scratch/rt\".Record(\"top %%v %%v %%v\", $%s, ${%s.offset}, ${%s.endoffset}); $$ = $%s }\n", lead, pre, r.name, r.name, r.name, r.name, r.name)
+	}
+	sb.WriteString(";\n\n")
+	for _, r := range g.rules {
+		fmt.Fprintf(&sb, "%s {int}:\n    %s\n;\n\n", r.name, seqText(r.body))
+	}
+	if terms["tp"] {
+		sb.WriteString("P {int}:\n    tp tq { $$ = 200 + $tp }\n;\n\n")
+	}
+	if look {
+		fmt.Fprintf(&sb, "Z:\n    %s\n;\n", strings.Join(tl, " | "))
+	}
+	g.tm = sb.String()
+
+	g.shortest = 1 << 30
+	for ri, r := range g.rules {
+		for _, e := range r.exps {
+			nt := len(tokens(e))
+			if nt > L {
+				continue
+			}
+			g.shortest = min(g.shortest, nt)
+			present := map[int]bool{}
+			for _, en := range e {
+				if en.pos > 0 {
+					present[en.pos] = true
+				}
+			}
+			if len(present) < r.npos {
+				g.absent = true
+			}
+			for _, sp := range spacings {
+				text, placed, rs, re := place(g.prefix[ri], e, sp)
+				var want []wrec
+				endRan := false
+				lhs := 0
+				for i, en := range placed {
+					if en.k != kAct {
+						continue
+					}
+					vals, pres := r.expect(placed, i)
+					where := "end"
+					if en.act.mid {
+						where = "mid"
+					}
+					want = append(want, wrec{Tag: en.act.tag, Vals: vals, pres: pres, refs: en.act.refs, where: where})
+					if en.act.end {
+						endRan, lhs = true, en.act.lhs
+					}
+				}
+				top := wrec{Tag: "top", where: "parent", Vals: []string{wild, wild, wild}, pres: []string{"present", "present", "present"},
+					refs: []ref{{Text: "$" + r.name, Class: "lhs.value"}, {Text: "${" + r.name + ".offset}", Class: "nonterm.offset"}, {Text: "${" + r.name + ".endoffset}", Class: "nonterm.endoffset"}}}
+				if endRan {
+					top.Vals[0] = fmt.Sprint(lhs)
+				}
+				if rs >= 0 {
+					top.Vals[1], top.Vals[2] = fmt.Sprint(rs), fmt.Sprint(re)
+				}
+				want = append(want, top)
+				g.cases = append(g.cases, xcase{text: text, rule: ri, want: want})
+			}
+		}
+	}
+	return len(g.cases) > 0
+}
+
+// ---- enumeration of the family
+
+type variant struct {
+	name string
+	sel  func(gs []gap) map[int]bool
+	end  bool
+}
+
+func selAll(gs []gap) map[int]bool {
+	m := map[int]bool{}
+	for i := range gs {
+		m[i] = true
+	}
+	return m
+}
+
+func itemNames(items []int) string {
+	var p []string
+	for _, it := range items {
+		p = append(p, catalogue[it].name)
+	}
+	return strings.Join(p, " ")
+}
+
+// makeRule builds one rule from catalogue items and an action placement; look >= 0 inserts a
+// lookahead at that top-level index AFTER the actions were placed (so that tags and visible
+// references stay identical to the rule without it). nil = not applicable.
+func makeRule(items []int, sel func(gs []gap) map[int]bool, end bool, look int) *rule {
+	body := buildBody(items)
+	if body == nil {
+		return nil
+	}
+	var m map[int]bool
+	if sel != nil {
+		m = sel(gaps(&body))
+	}
+	insertActions(&body, m, end, 9001)
+	if look >= 0 {
+		if look > len(body) {
+			return nil
+		}
+		body = append(body[:look], append([]*node{{k: kLook}}, body[look:]...)...)
+	}
+	if !lookaheadsOK(body) {
+		return nil
+	}
+	return &rule{body: body}
+}
+
+func tuples(n int, lim int, f func(t []int)) {
+	t := make([]int, n)
+	var rec func(i int)
+	rec = func(i int) {
+		if i == n {
+			f(append([]int{}, t...))
+			return
+		}
+		for v := 0; v < lim; v++ {
+			t[i] = v
+			rec(i + 1)
+		}
+	}
+	rec(0)
+}
+
+func enumerate(quick bool) []*gspec {
+	var out []*gspec
+	seen := map[string]bool{}
+	add := func(desc string, rules ...*rule) {
+		for _, r := range rules {
+			if r == nil {
+				return
+			}
+		}
+		g := &gspec{desc: desc, rules: rules}
+		for i := range rules {
+			if i == 0 {
+				g.prefix = append(g.prefix, "")
+			} else {
+				g.prefix = append(g.prefix, "z")
+			}
+		}
+		if !g.finish("gNAME") {
+			return
+		}
+		// the same text can arise from different tuples (e.g. no gap selected): keep the first
+		if seen[g.tm] {
+			return
+		}
+		seen[g.tm] = true
+		out = append(out, g)
+	}
+	single := func(items []int, withSingles, midOnly bool) {
+		body := buildBody(items)
+		if body == nil {
+			return
+		}
+		ng := len(gaps(&body))
+		nm := itemNames(items)
+		add(nm+" / end action only", makeRule(items, nil, true, -1))
+		// the largest placement (greedy, left to right) in which no expansion puts two actions
+		// next to each other, then really every gap
+		greedy := greedySel(items, true)
+		add(nm+" / actions at every gap that cannot become adjacent to another action", makeRule(items, func([]gap) map[int]bool { return greedy }, true, -1))
+		add(nm+" / actions at every gap", makeRule(items, selAll, true, -1))
+		if withSingles {
+			for gi := 0; gi < ng; gi++ {
+				gi := gi
+				add(fmt.Sprintf("%s / mid-rule action at gap %d", nm, gi), makeRule(items, func([]gap) map[int]bool { return map[int]bool{gi: true} }, true, -1))
+			}
+		}
+		if midOnly {
+			g2 := greedySel(items, false)
+			add(nm+" / actions at every non-adjacent gap, no end action", makeRule(items, func([]gap) map[int]bool { return g2 }, false, -1))
+		}
+	}
+	pairs := func(items []int) {
+		nm := itemNames(items)
+		base := makeRule(items, selAll, true, -1)
+		if base == nil || !hasTopMid(base.body) {
+			return
+		}
+		add(nm+" / two identical rules", makeRule(items, selAll, true, -1), makeRule(items, selAll, true, -1))
+		for li := 0; li <= len(base.body); li++ {
+			// directly before or after a top-level mid-rule action
+			before := li < len(base.body) && base.body[li].k == kAct && !base.body[li].end
+			after := li > 0 && base.body[li-1].k == kAct
+			if !before && !after {
+				continue
+			}
+			add(fmt.Sprintf("%s / same rule twice, second with a lookahead at %d", nm, li), makeRule(items, selAll, true, -1), makeRule(items, selAll, true, li))
+			add(fmt.Sprintf("%s / same rule twice, first with a lookahead at %d", nm, li), makeRule(items, selAll, true, li), makeRule(items, selAll, true, -1))
+		}
+	}
+	idx := func(names ...string) []int {
+		var t []int
+		for _, n := range names {
+			found := false
+			for i, c := range catalogue {
+				if c.name == n {
+					t = append(t, i)
+					found = true
+				}
+			}
+			if !found {
+				panic("no item " + n)
+			}
+		}
+		return t
+	}
+	// 1 item: whole catalogue, every variant
+	tuples(1, len(catalogue), func(t []int) { single(t, true, true) })
+	if quick {
+		// 2 items: reduced catalogue, end-only + every-gap; singles for the two basic shapes
+		tuples(2, reducedCatalogue, func(t []int) { single(t, t[0] <= 1 && t[1] <= 1, false) })
+		for _, t := range [][]int{idx("s", "dup"), idx("s?", "dup"), idx("s?", "(s|s s)"), idx("s", "set(s|s)[x]"), idx("s?", "(s separator s)+"), idx("s*[x]", "s")} {
+			single(t, false, false)
+		}
+		// 3 items with a lookahead in the middle
+		for _, a := range []string{"s", "s?", "(s|s)[x]"} {
+			for _, b := range []string{"s", "P"} {
+				single(idx(a, "(?=Z)", b), false, false)
+			}
+		}
+		single(idx("s", "s?", "s"), false, false)
+		single(idx("s?", "s", "dup"), false, false)
+		// pairs sharing action texts
+		for _, t := range [][]int{idx("s", "s"), idx("s?", "s"), idx("s", "s?"), idx("(s|s)[x]", "s"), idx("s+[x]", "s"), idx("P", "s"), idx("s", "s", "s")} {
+			pairs(t)
+		}
+		return out
+	}
+	tuples(2, len(catalogue), func(t []int) { single(t, true, true) })
+	tuples(2, reducedCatalogue, pairs)
+	tuples(3, reducedCatalogue, func(t []int) { single(t, false, false) })
+	tuples(3, 3, pairs)
+	return out
+}
+
+// greedySel selects gaps left to right, keeping a gap only if no expansion of the resulting rule
+// has two actions with nothing between them.
+func greedySel(items []int, end bool) map[int]bool {
+	body := buildBody(items)
+	if body == nil {
+		return nil
+	}
+	ng := len(gaps(&body))
+	sel := map[int]bool{}
+	for gi := 0; gi < ng; gi++ {
+		sel[gi] = true
+		cp := map[int]bool{}
+		for k := range sel {
+			cp[k] = true
+		}
+		body := buildBody(items)
+		insertActions(&body, cp, end, 9001)
+		if adjacentActions(expandSeq(body)) {
+			delete(sel, gi)
+		}
+	}
+	return sel
+}
+
+func hasTopMid(body []*node) bool {
+	for _, n := range body {
+		if n.k == kAct && !n.end {
+			return true
+		}
+	}
+	return false
+}
+
+// ---- running
+
+type rCase struct {
+	Kind  string     `json:"kind"` // bind | generate | build
+	Rules string     `json:"rules"`
+	TM    string     `json:"tm"`
+	Text  string     `json:"text,omitempty"`
+	Want  [][]string `json:"want,omitempty"` // expected records, "*" = any
+}
+
+func wantRecords(w []wrec) [][]string {
+	var out [][]string
+	for _, r := range w {
+		out = append(out, append([]string{r.Tag}, r.Vals...))
+	}
+	return out
+}
+
+// sharedMidRuleAtDifferentDepths inspects the compiled grammar (diagnosis only, after a black-box
+// mismatch was observed): is there an extracted mid-rule nonterminal that is used with different
+// numbers of preceding right-hand-side symbols? Its code addresses the stack relative to one depth.
+func sharedMidRuleAtDifferentDepths(g *grammar.Grammar) (string, bool) {
+	if g == nil || g.Parser == nil {
+		return "", false
+	}
+	extracted := map[int]bool{}
+	for _, r := range g.Parser.Rules {
+		if len(r.RHS) == 0 && r.Action > 0 && r.Action < len(g.Parser.Actions) && strings.Contains(g.Syms[r.LHS].Name, "$") {
+			extracted[int(r.LHS)] = true
+		}
+	}
+	depths := map[int]map[int]string{}
+	for _, r := range g.Parser.Rules {
+		k := 0
+		for _, s := range r.RHS {
+			if s.IsStateMarker() {
+				continue
+			}
+			if extracted[int(s)] {
+				if depths[int(s)] == nil {
+					depths[int(s)] = map[int]string{}
+				}
+				depths[int(s)][k] = g.Syms[r.LHS].Name
+			}
+			k++
+		}
+	}
+	var syms []int
+	for s := range depths {
+		syms = append(syms, s)
+	}
+	sort.Ints(syms)
+	for _, s := range syms {
+		if len(depths[s]) > 1 {
+			var d []string
+			var ks []int
+			for k := range depths[s] {
+				ks = append(ks, k)
+			}
+			sort.Ints(ks)
+			for _, k := range ks {
+				d = append(d, fmt.Sprintf("after %d symbol(s) in %s", k, depths[s][k]))
+			}
+			return fmt.Sprintf("extracted nonterminal %s is shared: used %s", g.Syms[s].Name, strings.Join(d, " and ")), true
+		}
+	}
+	return "", false
+}
+
+// compare returns ("", "") or (key, message).
+func compare(want []wrec, res genharness.Result, g *grammar.Grammar) (key, msg string, compared int, classes map[string]int) {
+	classes = map[string]int{}
+	diag, shared := sharedMidRuleAtDifferentDepths(g)
+	if res.Panic != "" || res.Hang || res.Aborted {
+		if shared {
+			return "midrule-dedupe:wrong-stack-slot", "generated parser crashed (" + firstLine(res.Panic) + "); " + diag, 0, classes
+		}
+		return "parser:crash-or-hang", fmt.Sprintf("panic=%q hang=%v aborted=%v", firstLine(res.Panic), res.Hang, res.Aborted), 0, classes
+	}
+	if !res.Accept {
+		return "parser:sentence-rejected", fmt.Sprintf("the generated parser rejects the sentence at offset %d", res.ErrOff), 0, classes
+	}
+	for i, w := range want {
+		if i >= len(res.Values) {
+			return "records:action-not-executed", fmt.Sprintf("action %q did not run; recorded %q", w.Tag, res.Values), compared, classes
+		}
+		f := strings.Fields(res.Values[i])
+		if len(f) != len(w.Vals)+1 || f[0] != w.Tag {
+			return "records:unexpected-action", fmt.Sprintf("record %d is %q, expected action %q with %d values", i, res.Values[i], w.Tag, len(w.Vals)), compared, classes
+		}
+		for j, v := range w.Vals {
+			if v == wild {
+				continue
+			}
+			compared++
+			classes[w.where+"/"+w.refs[j].Class+"/"+w.pres[j]]++
+			if f[j+1] != v {
+				if w.where == "mid" && shared {
+					return "midrule-dedupe:wrong-stack-slot", fmt.Sprintf("mid-rule action %s: %s evaluates to %s, must be %s; %s", w.Tag, w.refs[j].Text, f[j+1], v, diag), compared, classes
+				}
+				return fmt.Sprintf("binding:%s:%s:%s", w.where, w.refs[j].Class, w.pres[j]),
+					fmt.Sprintf("action %s (%s): %s evaluates to %s, must be %s (symbol %s in this expansion)", w.Tag, w.where, w.refs[j].Text, f[j+1], v, w.pres[j]), compared, classes
+			}
+		}
+	}
+	if len(res.Values) > len(want) {
+		return "records:unexpected-action", fmt.Sprintf("extra records %q", res.Values[len(want):]), compared, classes
+	}
+	return "", "", compared, classes
+}
+
+func firstLine(s string) string {
+	if i := strings.IndexByte(s, '\n'); i >= 0 {
+		return s[:i]
+	}
+	return s
+}
+
+func isConflict(genErr string) bool {
+	return strings.Contains(genErr, "conflict")
+}
+
+func run(c *core.Ctx) {
+	c.Rule("grammars = rule bodies of 1..3 catalogue items (19 item shapes: plain/optional/aliased symbol, optional group, choice with shared alias, " +
+		"multi-symbol alias, +/* lists with and without separator, set, (?= Z) lookahead, typed nonterminal, repeated symbol) x action placements " +
+		"(end only / one mid-rule action at each gap incl. gaps inside groups / every gap / every gap without end action) plus pairs of rules with identical action texts " +
+		"(second rule identical or with a lookahead next to a mid-rule action); every expansion of the rule as written with <= 5 tokens (lists 0..2 elements) x 2 blank patterns is parsed; " +
+		"an evaluation = one recorded reference value compared with the model; a grammar is non-trivial when it has a mid-rule action and an exercised expansion in which a symbol of the rule is absent")
+	c.Assume("scratch/rt.Record and the lexer action `$$ = 100 + l.tokenOffset` make token values observable; S: R {record $R} observes $$")
+	c.Assume("conventions without prose documentation are taken from the implementation: 0-based $N, name#k for repeated names, names scoped per parenthesised alternative; " +
+		"values of lists/sets, positions of empty lists and first()/last() landing on an extracted action or lookahead are not specified and are left out")
+	specs := enumerate(c.Quick())
+	c.Set("grammars_enumerated", len(specs))
+	if os.Getenv("C16_LIST") != "" { // debugging aid: print the family and stop
+		for i, g := range specs {
+			fmt.Printf("%4d adj=%v mid=%v absent=%v cases=%d  %s   [%s]\n", i, g.adj, g.hasMid, g.absent, len(g.cases), g.ruleTexts(), g.desc)
+		}
+		if os.Getenv("C16_LIST") == "tm" {
+			for _, g := range specs {
+				fmt.Println(g.tm)
+			}
+		}
+		return
+	}
+	// grammars that can put two actions next to each other go into batches of their own: the
+	// generated code for those does not build at present (finding adjacent-actions), and one
+	// failing package costs a rebuild of the whole batch
+	var order []*gspec
+	for _, g := range specs {
+		if !g.adj {
+			order = append(order, g)
+		}
+	}
+	nPlain := len(order)
+	for _, g := range specs {
+		if g.adj {
+			order = append(order, g)
+		}
+	}
+	batch := 100
+	var evals, nontrivial, built int64
+	classes := map[string]int{}
+	for start := 0; start < len(order); {
+		if c.Expired() {
+			c.Capped(fmt.Sprintf("stopped after %d of %d grammars (budget)", start, len(order)))
+			break
+		}
+		end := min(start+batch, len(order))
+		if start < nPlain && end > nPlain {
+			end = nPlain
+		}
+		var hs []genharness.Spec
+		for i := start; i < end; i++ {
+			g := order[i]
+			name := fmt.Sprintf("g%04d", i)
+			tm := strings.ReplaceAll(g.tm, "gNAME", name)
+			var cases []genharness.Case
+			for _, cs := range g.cases {
+				cases = append(cases, genharness.Case{Text: cs.text, Mode: "parse"})
+			}
+			hs = append(hs, genharness.Spec{Name: name, TM: tm, Cases: cases})
+		}
+		outs, err := genharness.RunBatch(hs, genharness.BatchOpts{})
+		if err != nil {
+			c.Violate("harness:build", err.Error(), nil)
+			return
+		}
+		for bi, out := range outs {
+			g := order[start+bi]
+			tm := hs[bi].TM
+			switch {
+			case out.GenPanic != "":
+				c.Violate("generate:panic:"+core.PanicSite(fmt.Errorf("%s", out.GenPanic)), fmt.Sprintf("%s  [%s]: %s", g.ruleTexts(), g.desc, firstLine(out.GenPanic)), rCase{Kind: "generate", Rules: g.ruleTexts(), TM: tm})
+				continue
+			case out.GenErr != "" && isConflict(out.GenErr):
+				c.Add("grammars_with_lalr_conflicts_skipped", 1)
+				continue
+			case out.GenErr != "":
+				c.Violate("generate:error", fmt.Sprintf("%s  [%s]: %s", g.ruleTexts(), g.desc, out.GenErr), rCase{Kind: "generate", Rules: g.ruleTexts(), TM: tm})
+				continue
+			case out.BuildErr != "":
+				if g.adj && strings.Contains(out.BuildErr, "syntax error: unexpected {") {
+					c.Violate("adjacent-actions:generated-code-does-not-build", fmt.Sprintf("%s  [%s]: an expansion puts two actions next to each other; their code is concatenated as `{...}{...}`: %s", g.ruleTexts(), g.desc, firstLine(strings.TrimPrefix(out.BuildErr, "# scratch/"+out.Name+"\n"))), rCase{Kind: "build", Rules: g.ruleTexts(), TM: tm})
+				} else {
+					c.Violate("build:generated-code-does-not-build", fmt.Sprintf("%s  [%s]: %s", g.ruleTexts(), g.desc, out.BuildErr), rCase{Kind: "build", Rules: g.ruleTexts(), TM: tm})
+				}
+				continue
+			}
+			built++
+			var ge int64
+			for ci, cs := range g.cases {
+				key, msg, n, cl := compare(cs.want, out.Results[ci], out.Grammar)
+				ge += int64(n)
+				for k, v := range cl {
+					classes[k] += v
+				}
+				if key != "" {
+					c.Violate(key, fmt.Sprintf("%s  [%s] on %q: %s", g.ruleTexts(), g.desc, cs.text, msg),
+						rCase{Kind: "bind", Rules: g.ruleTexts(), TM: tm, Text: cs.text, Want: wantRecords(cs.want)})
+				}
+			}
+			evals += ge
+			if g.hasMid && g.absent {
+				nontrivial++
+			}
+			if c.SampleCount() < 8 && g.hasMid && g.absent {
+				c.Sample(map[string]any{"rules": g.ruleTexts(), "variant": g.desc, "sentences": len(g.cases), "first": g.cases[0].text})
+			}
+		}
+		start = end
+	}
+	c.Eval(evals)
+	c.Nontrivial(nontrivial)
+	c.Set("grammars_built_and_run", built)
+	c.Set("sentence_length_bound", L)
+	keys := make([]string, 0, len(classes))
+	for k := range classes {
+		keys = append(keys, k)
+	}
+	sort.Strings(keys)
+	for _, k := range keys {
+		c.Outcome(k, int64(classes[k]))
+	}
+}
+
+// replay re-runs one recorded (grammar text, input) case.
 func replay(c *core.Ctx, raw json.RawMessage) error {
 	var k rCase
 	if err := json.Unmarshal(raw, &k); err != nil {
 		return err
 	}
-	outs, err := genharness.RunBatch([]genharness.Spec{{Name: "g0000", TM: k.TM, Cases: []genharness.Case{{Text: k.Text, Mode: "parse"}}}}, genharness.BatchOpts{})
+	name := "g0000"
+	if i := strings.Index(k.TM, "language "); i >= 0 {
+		if j := strings.Index(k.TM[i:], "("); j > 0 {
+			name = k.TM[i+len("language ") : i+j]
+		}
+	}
+	outs, err := genharness.RunBatch([]genharness.Spec{{Name: name, TM: k.TM, Cases: []genharness.Case{{Text: k.Text, Mode: "parse"}}}}, genharness.BatchOpts{})
 	if err != nil {
 		return err
 	}
 	o := outs[0]
-	fmt.Println("generr:", o.GenErr, o.GenPanic)
-	fmt.Println("builderr:", o.BuildErr)
 	if os.Getenv("C16_DUMP") != "" {
 		src := o.Files["parser.go"]
 		if i := strings.Index(src, "func (p *Parser) applyRule"); i >= 0 {
 			fmt.Println(src[i:])
 		}
+		fmt.Printf("generr=%q genpanic=%q builderr=%q\n", o.GenErr, firstLine(o.GenPanic), o.BuildErr)
+		for _, r := range o.Results {
+			fmt.Printf("accept=%v values=%q panic=%q\n", r.Accept, r.Values, firstLine(r.Panic))
+		}
 	}
-	for _, r := range o.Results {
-		fmt.Printf("%+v\n", r)
+	if o.GenPanic != "" {
+		return fmt.Errorf("generate panics: %s", firstLine(o.GenPanic))
+	}
+	if o.GenErr != "" {
+		if isConflict(o.GenErr) {
+			return nil
+		}
+		return fmt.Errorf("generate fails: %s", o.GenErr)
+	}
+	if o.BuildErr != "" {
+		return fmt.Errorf("generated code does not build: %s", o.BuildErr)
+	}
+	if k.Kind != "bind" && k.Kind != "" {
+		return nil
+	}
+	if len(k.Want) == 0 {
+		return nil
+	}
+	res := o.Results[0]
+	if res.Panic != "" || res.Hang || res.Aborted {
+		return fmt.Errorf("generated parser crashed: %s", firstLine(res.Panic))
+	}
+	if !res.Accept {
+		return fmt.Errorf("sentence rejected at offset %d", res.ErrOff)
+	}
+	if len(res.Values) != len(k.Want) {
+		return fmt.Errorf("recorded %q, expected %d records", res.Values, len(k.Want))
+	}
+	for i, w := range k.Want {
+		f := strings.Fields(res.Values[i])
+		if len(f) != len(w) {
+			return fmt.Errorf("record %d is %q, expected %q", i, res.Values[i], w)
+		}
+		for j := range w {
+			if w[j] != wild && w[j] != f[j] {
+				return fmt.Errorf("record %d is %q, expected %q (field %d)", i, res.Values[i], strings.Join(w, " "), j)
+			}
+		}
 	}
 	return nil
 }
